@@ -17,7 +17,7 @@ import os
 from .engine import Violation, SetupRejected, Unresolvable
 from .lang import Lang, canon, gen_spec, small_fixed_specs, corpus
 from .refmodel import RefModel, RefAsset, RefAssoc, RefAttacker
-from .world import BaseWorld, call, weighted
+from .world import BaseWorld, call, weighted, digest
 from . import findings, faults, legacy
 
 RULE = ('one run = one language (generator / hand-written corpus / coreLang), 1-2 models on one '
@@ -407,6 +407,7 @@ class ModelWorld(BaseWorld):
             self.fail(f'{P}.observe', f'observing the model raised {o.exc!r} after {where}')
         got = normalise_obs(o.value)
         exp = normalise_obs(ref.observe())
+        self._state_digest = digest(exp)
         self.count(f'oracle:{P}.state')
         if got != exp:
             clause = f'{P}.raise_atomic' if raised else None
@@ -858,6 +859,8 @@ class ModelWorld(BaseWorld):
             return None
         return {'op': 'neo_ingest_graph', 'delete': rng.random() < 0.7, 'db': rng.choice([0, 1]),
                 'attach': rng.random() < 0.5, 'analyse': rng.random() < 0.5,
+                'remove': [rng.randrange(200) for _ in range(rng.choice([0, 0, 1, 2, 4]))],
+                'prune': rng.random() < 0.3,
                 'fault': self._gen_peer_fault(rng)}
 
     def gen_foreign(self, rng, mi, ref):
@@ -879,9 +882,10 @@ class ModelWorld(BaseWorld):
         if fn is None:
             raise Unresolvable()
         self.count('op:' + kind)
+        self._state_digest = ''
         out = fn(op, mi, self.models[mi], self.refs[mi])
         self.count('out:' + out)
-        return [kind, out, '']
+        return [kind, out, self._state_digest]
 
     def finish(self):
         pass
@@ -1569,7 +1573,14 @@ class ModelWorld(BaseWorld):
         if op['kind'] == 'scad':
             path = self.fresh_path('.sCAD')
             legacy.write_scad(ref, self.L, path, op)
-            o = call(securicad.load_model_from_scad_archive, path, self.lg, self.factory)
+            # relative path: the loader names the model after the path it was given
+            cwd = os.getcwd()
+            os.chdir(self.dir)
+            try:
+                o = call(securicad.load_model_from_scad_archive, os.path.basename(path),
+                         self.lg, self.factory)
+            finally:
+                os.chdir(cwd)
             where = 'load_model_from_scad_archive'
             # the archive has no attacker names and only pairwise links
             for k in ref.attacker_order:
@@ -1581,7 +1592,7 @@ class ModelWorld(BaseWorld):
             for cls, l, r in pairs:
                 nh = self.new_handle('s')
                 ref.add_assoc(RefAssoc(nh, cls, [l], [r]))
-            ref.name = path
+            ref.name = os.path.basename(path)
             self.count('probe:legacy_scad')
             if any(op.get('flip', [])):
                 self.count('probe:legacy_scad_flipped_orientation')
@@ -1781,6 +1792,18 @@ class ModelWorld(BaseWorld):
         if op.get('analyse'):
             if call(calculate_viability_and_necessity, g).raised:
                 return 'generation_failed'
+            if op.get('prune'):
+                from maltoolbox.attackgraph.analyzers.apriori import prune_unviable_and_unnecessary_nodes
+                if call(prune_unviable_and_unnecessary_nodes, g).raised:
+                    return 'generation_failed'
+        # the graph that is ingested has a history: nodes were removed, ids have gaps
+        for pos in op.get('remove') or []:
+            if g.nodes:
+                if call(g.remove_node, g.nodes[pos % len(g.nodes)]).raised:
+                    return 'generation_failed'
+        ids = sorted(n.id for n in g.nodes)
+        if ids and ids != list(range(len(ids))):
+            self.count('probe:ingested_graph_with_id_gaps')
         fault = op.get('fault')
         if fault == 'delete' and not op.get('delete'):
             fault = None
